@@ -2,6 +2,10 @@
 //              C03 (payloads accepted by validation expose only in-bounds data)
 // Monitors: ASan (vector annotations) + UBSan + LeakSanitizer, guard-paged read-only inputs, explicit view
 // range oracle, ownership snapshots taken before and after the input / decoder are gone.
+#define VF_FAILPOINT_IMPL
+#include <sys/wait.h>
+#include <csignal>
+#include "failpoint.h"
 #include <sys/mman.h>
 
 #include <asam_cmp/decoder.h>
@@ -139,6 +143,39 @@ struct Session
             auto t = TECMP::Decoder::Decode(g.data, f.size());
             inspect(t, f, "TECMP::Decoder::Decode");
         }
+    }
+
+    // a decode call during which allocation number k of that call fails (std::bad_alloc leaves decode() half-way); optionally the
+    // same frame is offered again. Part of "any history of earlier decode calls": whatever the cut-short call left behind, the
+    // calls after it owe the same memory safety and the same ownership of what they return.
+    void feedWithAllocationFailure(const Bytes& f, long k, bool again)
+    {
+        fed.push_back(f);
+        c.note("history=" + describeFrames(fed, fed.size() - 1) + " (allocation " + std::to_string(k) + " of this decode call fails)");
+        ++c.evaluations;
+        std::vector<PacketPtr> got;
+        bool threw = false;
+        {
+            uint8_t* heap = static_cast<uint8_t*>(malloc(f.size() ? f.size() : 1));
+            memcpy(heap, f.data(), f.size());
+            {
+                vf::fp::FailAt fa(k);
+                try
+                {
+                    got = dec->decode(heap, f.size());
+                }
+                catch (const std::bad_alloc&)
+                {
+                    threw = true;
+                }
+            }
+            free(heap);
+        }
+        c.count(threw ? "decode_calls_cut_short_by_an_allocation_failure" : "allocation_failpoints_beyond_the_calls_last_allocation");
+        if (!threw)
+            inspect(got, f, "Decoder::decode");
+        else if (again)
+            feed(f);
     }
 
     // ownership: after the inputs are gone, more frames were decoded and the decoder is destroyed,
@@ -335,7 +372,10 @@ void randomHistory(Ctx& c, long idx)
             Bytes f = h.streams[static_cast<size_t>(ep)].frames[pos[static_cast<size_t>(ep)]++].raw;
             if (r.chance(1, 4))
                 mutateFrame(f, r);
-            s.feed(f);
+            if (r.chance(1, 8))
+                s.feedWithAllocationFailure(f, static_cast<long>(r.below(10)), r.chance(1, 2));
+            else
+                s.feed(f);
             continue;
         }
         std::string kind;
@@ -532,9 +572,103 @@ void segmentProductCase(Ctx& c, long j)
     c.count("segment_header_product_cases");
 }
 
+// deterministic: an interleaved segment script of two endpoints plus unsegmented frames; at frame position p allocation k of the
+// decode call fails (every p, k = 0..7), with and without the frame being offered again; the rest of the script follows, then
+// the script once more from the start on the same decoder
+constexpr long kAllocFailCases = 24;
+void allocFailCase(Ctx& c, long j)
+{
+    Rng r = c.fixedRng(j, 71);
+    c05::History h;
+    for (int e = 0; e < 2; ++e)
+        c05::genStream(r, h, e, static_cast<uint16_t>(0x0101 + e), static_cast<uint8_t>(3 + e), 2 + static_cast<size_t>(j % 3), static_cast<uint16_t>(65533 + e), (j % 4 == 3) ? 30000 : 120);
+    std::vector<int> order = c05::randomMerge(r, h);
+    const bool again = j % 2;
+    for (size_t p = 0; p < order.size() && p < 40; ++p)
+        for (long k = 0; k < 8; ++k)
+        {
+            Session s{c};
+            for (int round = 0; round < 2; ++round)
+            {
+                std::vector<size_t> pos(h.streams.size(), 0);
+                for (size_t i = 0; i < order.size(); ++i)
+                {
+                    const Bytes& f = h.streams[static_cast<size_t>(order[i])].frames[pos[static_cast<size_t>(order[i])]++].raw;
+                    if (round == 0 && i == p)
+                        s.feedWithAllocationFailure(f, k, again);
+                    else
+                        s.feed(f);
+                }
+            }
+            s.finish();
+            c.count("allocation_failure_histories");
+        }
+    c.sig(mix64(0xa110c, static_cast<uint64_t>(j)));
+}
+
+// deterministic: endpoint X opens a reassembly; 70 000 / 140 000 / 300 000 other decode calls (unsegmented CMP frames of other
+// endpoints, TECMP frames, runts) pass before each of its further segments - more than one, two and four turns of a 16-bit count
+// of calls. Periodic house-keeping keyed on the number of calls shows here.
+constexpr long kLongGapCases = 3;
+void longGapCase(Ctx& c, long j)
+{
+    static const size_t gaps[] = {70000, 140000, 300000};
+    const size_t gap = gaps[j % 3];
+    Rng r = c.fixedRng(j, 73);
+    Session s{c};
+    Bytes data = r.bytes(22);
+    std::vector<Bytes> seg;
+    for (int i = 0; i < 3; ++i)
+    {
+        GMsg m;
+        m.ts = 77;
+        m.idWord = 3;
+        m.ptype = 0x52;
+        m.flags = static_cast<uint8_t>(i == 0 ? wire::SEG_FIRST : (i == 2 ? wire::SEG_LAST : wire::SEG_MID));
+        if (i == 0)
+            m.payload.assign(data.begin(), data.begin() + 10);
+        else if (i == 1)
+            m.payload.assign(data.begin() + 10, data.end());
+        seg.push_back(buildFrame(1, 0x0301, wire::MT_DATA, 9, static_cast<uint16_t>(65534 + i), {m}));
+    }
+    GMsg u;
+    u.ts = 1;
+    u.idWord = 2;
+    u.ptype = 0x53;
+    u.payload = r.bytes(6);
+    Bytes other = buildFrame(1, 0x0302, wire::MT_DATA, 9, 0, {u});
+    Bytes tec = genTecmpFrame(r);
+    Bytes runt = {1, 2, 3};
+    uint16_t seq = 0;
+    for (int i = 0; i < 3; ++i)
+    {
+        s.feed(seg[static_cast<size_t>(i)]);
+        if (i == 2)
+            break;
+        for (size_t k = 0; k < gap; ++k)
+        {
+            ++c.evaluations;
+            if (k % 7 == 3)
+                s.dec->decode(tec.data(), tec.size());
+            else if (k % 11 == 5)
+                s.dec->decode(runt.data(), runt.size());
+            else
+            {
+                wire::set16(other.data() + 6, seq++);
+                auto got = s.dec->decode(other.data(), other.size());
+                if (got.size() != 1)
+                    c.violation("C02:too-many-packets", "an unsegmented frame of another endpoint yielded " + std::to_string(got.size()) + " packets", "long gap history");
+            }
+        }
+    }
+    s.finish();
+    c.count("histories_with_more_than_65536_calls_between_two_segments");
+    c.sig(mix64(0x10a69a9, static_cast<uint64_t>(j)));
+}
+
 long c02Count(Ctx& c)
 {
-    return static_cast<long>(canon().size()) * (kFieldsPerFrame + 1) + 256 + kOverflowCases + kTypedBoundaryCases + kSegmentProductCases + (c.thorough() ? 250000 : 3000);
+    return static_cast<long>(canon().size()) * (kFieldsPerFrame + 1) + 256 + kOverflowCases + kTypedBoundaryCases + kSegmentProductCases + kAllocFailCases + kLongGapCases + (c.thorough() ? 250000 : 3000);
 }
 void c02Run(Ctx& c, long idx)
 {
@@ -553,7 +687,13 @@ void c02Run(Ctx& c, long idx)
     idx -= kTypedBoundaryCases;
     if (idx < kSegmentProductCases)
         return segmentProductCase(c, idx);
-    randomHistory(c, idx + nc + 256 + kOverflowCases + kTypedBoundaryCases + kSegmentProductCases);
+    idx -= kSegmentProductCases;
+    if (idx < kAllocFailCases)
+        return allocFailCase(c, idx);
+    idx -= kAllocFailCases;
+    if (idx < kLongGapCases)
+        return longGapCase(c, idx);
+    randomHistory(c, idx + nc + 256 + kOverflowCases + kTypedBoundaryCases + kSegmentProductCases + kAllocFailCases + kLongGapCases);
 }
 
 // -------------------------------------------------------------------------------------------------
@@ -955,7 +1095,7 @@ void c03Big(Ctx& c, long j)
 constexpr long kC03DetLengths = 60;  // length indices per class
 long c03Count(Ctx& c)
 {
-    return kC03DetLengths * CL_COUNT + 24 + (c.thorough() ? 2100000 : 40000);
+    return kC03DetLengths * CL_COUNT + 24 + kAllocFailCases + (c.thorough() ? 2100000 : 40000);
 }
 void c03Run(Ctx& c, long idx)
 {
@@ -963,6 +1103,9 @@ void c03Run(Ctx& c, long idx)
         return c03Det(c, idx);
     if (idx < kC03DetLengths * CL_COUNT + 24)
         return c03Big(c, idx - kC03DetLengths * CL_COUNT);
+    // "every packet a decoder returns as valid": also from a decoder one of whose earlier calls was cut short by an allocation failure
+    if (idx < kC03DetLengths * CL_COUNT + 24 + kAllocFailCases)
+        return allocFailCase(c, idx - kC03DetLengths * CL_COUNT - 24);
     c03Random(c, idx);
 }
 
@@ -1018,7 +1161,7 @@ std::string c03Judge(const std::vector<std::string>& then, const std::vector<std
 }
 void c03AfterMain();
 // (never destroyed: the atexit handler still reads it)
-const std::vector<std::string>& gC03BeforeMain = *new std::vector<std::string>((lateReport(), atexit(c03AfterMain), c03FixedSet()));
+const std::vector<std::string>& gC03BeforeMain = *new std::vector<std::string>((lateReport(), atexit(c03AfterMain), probeInChild(c03FixedSet)));
 void c03AfterMain()
 {
     if (lateReport().prop != "C03" || lateReport().shard != 0)
@@ -1030,13 +1173,89 @@ void c03AfterMain()
 void c03OutsideMainCase(Ctx& c)
 {
     auto now = c03FixedSet();
-    std::string d = c03Judge(gC03BeforeMain, now);
+    std::string d = probeDied(gC03BeforeMain);
+    if (d.empty())
+        d = c03Judge(gC03BeforeMain, now);
     if (d.empty())
         d = c03Judge(now, gC03BeforeMain);
     ++c.evaluations;
     c.count("payloads_also_decoded_before_and_after_main", now.size());
     if (!d.empty())
         c.violation("C03:view-outside-payload-or-other-verdict-before-main", d, "fixed set of 140 typed payloads");
+}
+
+// C02 outside main(): every canonical frame (every CMP payload kind, every TECMP kind incl. bus status) is decoded during static
+// initialisation, inside main() and after main() has returned; "returns normally and promptly" and the packet bound hold at
+// every moment and the three answers agree. The run before main() happens in a forked child with an alarm, so that a call that
+// never comes back (or dies) there is observed instead of taking the driver down with it.
+std::vector<std::string> c02FixedSet()
+{
+    std::vector<std::string> out;
+    for (auto& cn : canonicalFrames())
+    {
+        const Bytes& f = cn.frame;
+        std::string line = cn.family + " " + hex(f, 64) + " ->";
+        Decoder dec;
+        auto got = dec.decode(f.data(), f.size());
+        line += " " + std::to_string(got.size()) + " packet(s)";
+        if (got.size() > f.size() / 12)
+            line += " TOO-MANY";
+        for (auto& p : got)
+            line += p ? " " + snapPacket(*p).str() : " null";
+        if (!f.empty() && f[0] == 0)
+        {
+            auto t = TECMP::Decoder::Decode(f.data(), f.size());
+            line += " | TECMP " + std::to_string(t.size()) + " packet(s)";
+            for (auto& p : t)
+                line += p ? " " + snapPacket(*p).str() : " null";
+        }
+        out.push_back(std::move(line));
+    }
+    return out;
+}
+std::vector<std::string> c02FixedSetInChild()
+{
+    return probeInChild(c02FixedSet, 8);
+}
+void c02AfterMain();
+const std::vector<std::string>& gC02BeforeMain = *new std::vector<std::string>((lateReport(), atexit(c02AfterMain), c02FixedSetInChild()));
+std::string c02Judge(const std::vector<std::string>& then, const std::vector<std::string>& now)
+{
+    for (auto& l : then)
+        if (l.rfind("PROBE-DIED", 0) == 0)
+            return "decoding the canonical frames during static initialisation: " + l;
+    for (size_t i = 0; i < now.size(); ++i)
+    {
+        if (now[i].find("TOO-MANY") != std::string::npos)
+            return "more than one packet per 12 input bytes: " + now[i];
+        if (i < then.size() && then[i] != now[i])
+            return "then: " + then[i].substr(0, 1200) + " now: " + now[i].substr(0, 1200);
+    }
+    return "";
+}
+void c02AfterMain()
+{
+    if (lateReport().prop != "C02" || lateReport().shard != 0)
+        return;
+    std::string d = c02Judge(c02FixedSet(), c02FixedSet());
+    if (d.empty() && !gC02BeforeMain.empty() && gC02BeforeMain[0] != "PROBE-NOT-RUN")
+        d = c02Judge(gC02BeforeMain, c02FixedSet());
+    if (!d.empty())
+        lateViolation("C02:decode-after-main-returned-differs-or-fails", d);
+}
+void c02OutsideMainCase(Ctx& c)
+{
+    auto now = c02FixedSet();
+    ++c.evaluations;
+    if (gC02BeforeMain.empty() || gC02BeforeMain[0] == "PROBE-NOT-RUN")
+    {
+        c.count("before_main_probe_not_run");
+        return;
+    }
+    std::string d = c02Judge(gC02BeforeMain, now);
+    c.count("canonical_frames_also_decoded_before_and_after_main", now.size());
+    if (!d.empty())
+        c.violation("C02:decode-before-main-differs-or-does-not-return", d, "canonical frames decoded during static initialisation (in a forked child with an 8 second alarm)");
 }
 
 long countCases(Ctx& c)
@@ -1051,6 +1270,8 @@ void runCase(Ctx& c, long idx)
 {
     if (c.prop == "C03" && idx == 0)
         c03OutsideMainCase(c);
+    if (c.prop == "C02" && idx == 0)
+        c02OutsideMainCase(c);
     if (c.prop == "C02")
         c02Run(c, idx);
     else
